@@ -191,7 +191,8 @@ def main():
     d["maxResponseHead"] = const_int(cli, "MAX_RESPONSE_HEAD")
 
     # date
-    fb = fn_body(date, "format_http_date")
+    # the constants are looked up in the function first and then anywhere in the file (hoisting them to module level is harmless)
+    fb = fn_body(date, "format_http_date") + "\n" + date
     d["leapoch"] = const_int(fb, "LEAPOCH")
     d["daysPer400Y"] = const_int(fb, "DAYS_PER_400Y")
     d["daysPer100Y"] = const_int(fb, "DAYS_PER_100Y")
